@@ -463,17 +463,21 @@ package scanner
 
 //@ globalinv errRecursion : !isnil(ErrRecursionDetected)
 
+// hash.Hash.Write "never returns an error" and writes all its bytes (documented contract of package hash): the two error
+// returns of computeScannerHash are unreachable, so Push cannot fail between appending to the stack and appending the hash
 //@ func (*Stack).computeScannerHash
 //@   tag C01
 //@   trusted
 //@   requires scanner != nil && scanner.file != nil
 //@   modifies nothing
+//@   ensures isnil(ret1)
 
 //@ func (*Stack).Push
 //@   tag C01 C08 C02
 //@   requires StackInv(s) && scanner != nil && scanner.file != nil && at <= len(scanner.file.content)
 //@   modifies s.uniqueFiles, s.stack, s.hashes, mapof(s.uniqueFiles)
 //@   ensures [C08] old(has(s.uniqueFiles, scanner.file.name)) ==> !isnil(ret) && s.stack == old(s.stack) && s.hashes == old(s.hashes)
+//@   ensures StackInv(s)
 //@   ensures isnil(ret) ==> StackInv(s) && len(s.stack) == old(len(s.stack)) + 1 && s.stack[len(s.stack)-1].scanner == scanner && s.stack[len(s.stack)-1].at == at
 //@        && (forall k :: 0 <= k && k < old(len(s.stack)) ==> s.stack[k] == old(s.stack[k])) && has(s.uniqueFiles, scanner.file.name)
 
@@ -492,6 +496,7 @@ package scanner
 //@   freshfields
 //@   ghostensures ret.open == 0 && ret.lastEnd == 0 - 1
 //@   ensures fresh(ret) && NextInv(ret) && ret.file == file && ret.curIndex == 0 && ret.step == stateRoot
+//@   ensures forall x *Scanner :: x != ret ==> x.file == old(x.file)
 
 // ---------------------------------------------------------------- include traces (C02)
 
